@@ -44,3 +44,11 @@ package operations
 //@   ensures[docupd]   (op.OpType == model.TypeOfOperation_DOC_ARR_UPD) == result.(*DocUpdateInArrayOperation)
 //@   ensures[input-untouched] op.ID == old(op.ID) && op.OpType == old(op.OpType)
 //@   modifies TransactionBody.*, errorBody.*, increaseBody.*, PutBody.*, RemoveBody.*, InsertBody.*, DeleteBody.*, UpdateBody.*, DocPutInObjBody.*, DocRemoveInObjectBody.*, DocInsertToArrayBody.*, DocDeleteInArrayBody.*, DocUpdateInArrayBody.*, baseOperation.*, SnapshotOperation.*, ErrorOperation.*, TransactionOperation.*, IncreaseOperation.*, PutOperation.*, RemoveOperation.*, InsertOperation.*, DeleteOperation.*, UpdateOperation.*, DocPutInObjOperation.*, DocRemoveInObjOperation.*, DocInsertToArrayOperation.*, DocDeleteInArrayOperation.*, DocUpdateInArrayOperation.*
+
+// marshalBody encodes an operation body as JSON. Trusted: encoding/json cannot fail on the body
+// structs of this package (strings, integers, timestamps, JSON-normalised values), so the
+// panic(err) in it is taken as unreachable.
+//@ func marshalBody
+//@   trusted json.Marshal of operation body structs does not fail
+//@   mode math
+//@   modifies G:lastMarshaled
